@@ -192,6 +192,44 @@ R.add('L4.2', l42, [{}], replay=replay_l42,
       bounds='offset 0..32767 behind the newest message; arbitrary 256-bit message window; APP and APP_FRAGMENT')
 
 
+# ------------------------------------------------------------------ L4.3 retransmissions keep their message seq
+def l43(fragmented):
+    """the receiver recognises a retransmission by its message sequence number: whatever re-queues a
+    message after a timeout (RetrySender, FragmentSender.callback) must re-queue it under the seq it was
+    first sent with, or an already delivered message is delivered again when only its ack was lost"""
+    clock = proto.clock_at(100.0)
+    tx = proto.mk_base(clock=clock)
+    tx.seq_message = SeqNum(symint('msg_seq0', 0, 65535))
+    payload, L = rope.blob('p', 0, None)
+    if fragmented:
+        assume(And(L > Packet.MAX_PAYLOAD_SIZE, L <= Packet.MAX_PAYLOAD_SIZE + 2 * Packet.MAX_FRAGMENT_SIZE))
+    else:
+        assume(L <= Packet.MAX_PAYLOAD_SIZE)
+    mode = [RetryMode.RETRY_ON_TIMEOUT, RetryMode.BEST_EFFORT][choose(2, 'retry')]
+    tx.send(payload, mode, None)
+    msgs = list(tx.outgoing_messages)
+    k = choose(len(msgs), 'which')
+    orig = msgs[k]
+    if orig.callback is None:
+        return      # BEST_EFFORT without a callback: resent only from the resend table, same object
+    tx.outgoing_messages = []
+    # other traffic in between moves the connection's message counter on
+    tx.send(b'later', RetryMode.NONE, None)
+    tx.outgoing_messages = []
+    orig.callback(False)            # the datagram that carried it timed out
+    again = [m for m in tx.outgoing_messages]
+    if mode == RetryMode.RETRY_ON_TIMEOUT or fragmented:
+        check(len(again) == 1, 'a timed-out retried message is queued again')
+    for m in again:
+        check(m.seq == orig.seq, 'a retransmission carries the message sequence number of the original')
+        check(And(m.type == orig.type, m.payload == orig.payload), 'a retransmission is the identical message')
+
+
+R.add('L4.3', l43, [dict(fragmented=False), dict(fragmented=True)],
+      desc='timeout re-queue paths (RetrySender, FragmentSender.callback): same message seq, type and payload',
+      expect=['a retransmission carries the message sequence number of the original'])
+
+
 # ------------------------------------------------------------------ L4.4 scenario
 def l44(nmsg, steps):
     clock = proto.clock_at(100.0)
